@@ -37,6 +37,11 @@ def configs(tier, seed):
             # utils.array_support (only the first argument is iterated) and is outside the statement of C13 (DESIGN.md)
             out.append(dict(part='binop', op=rng.choice(OPS), x=[sx, n, 0], y=[not sx, n, 0], shape=[2], yscalar=True))
             out.append(dict(part='invert', x=[sx, n, n // 2], shape=[2]))
+    # an object with a past: the operator is used once, the object is widened (resize / like=), and the operator is used again
+    for n in ((3, 6, 16) if tier == 'quick' else (1, 3, 6, 8, 16, 31, 33, 62)):
+        for sx in (True, False):
+            for how in ('resize', 'like_kw'):
+                out.append(dict(part='history', x=[sx, n, n // 2], grow=rng.choice((1, 2, 5)), how=how, shape=[]))
     for (n1, n2) in ((8, 9), (16, 8), (64, 65), (5, 4)):
         out.append(dict(part='mismatch', op=rng.choice(OPS), x=[True, n1, 0], y=[rng.choice((True, False)), n2, 0]))
     return out
@@ -75,6 +80,18 @@ def run(F, cfg, inp):
     n = 2 if shape else 1
     x = _mk(F, cfg['x'], [inp['a%d' % i] for i in range(n)], shape)
     p = cfg['part']
+    if p == 'history':
+        first = ~x
+        (x & 1), (x | 1), (x ^ 1)
+        sx0, n0, f0 = cfg['x']
+        if cfg['how'] == 'resize':
+            x.resize(n_word=n0 + cfg['grow'])
+            w = x
+        else:
+            w = F.Fxp(x, like=x, n_word=n0 + cfg['grow'])
+        z = ~w
+        m = w ^ 5
+        return dict(first=O.snap(first.val), w=O.snap(w.val), z=O.snap(z.val), m=O.snap(m.val), fmt=_fmt(z), fmt_w=_fmt(w))
     if p == 'mismatch':
         y = _mk(F, cfg['y'], [inp['b0']], [])
         try:
@@ -116,6 +133,17 @@ def post(cfg, inp, ob):
     lo, hi = SP.limits(sx, n)
     if p == 'mismatch':
         return [('different_word_lengths_rejected', ob.get('raised') == 'ValueError')]
+    if p == 'history':
+        if '__exc__' in ob:
+            return [('no_exception:' + ob['__exc__'], False)]
+        n2 = n + cfg['grow']
+        c = a[0]                       # the code is kept by the widening (same n_frac, wider word)
+        ua = T.imod_pow2(c, n2)
+        return [('widened_format', ob['fmt_w'] == [sx, n2, f] and ob['fmt'] == [sx, n2, f]),
+                ('code_kept_by_widening', T.icmp(O.cells(ob['w'])[0], c, '==')),
+                ('first_invert_in_the_old_width', T.icmp(O.cells(ob['first'])[0], _resigned(T.isub((1 << n) - 1, T.imod_pow2(c, n)), sx, n), '==')),
+                ('invert_after_widening_flips_every_bit_of_the_new_word', T.icmp(O.cells(ob['z'])[0], _resigned(T.isub((1 << n2) - 1, ua), sx, n2), '==')),
+                ('xor_after_widening', T.icmp(O.cells(ob['m'])[0], _resigned(T.ixor(ua, 5 % (1 << n2)), sx, n2), '=='))]
     if '__exc__' in ob:
         return [('no_exception:' + ob['__exc__'], False)]
     out = []
